@@ -52,8 +52,8 @@ func main() {
 // ---- sizes ------------------------------------------------------------------------
 
 func seqWorkers() int   { return lib.Pick(4, 12) }
-func evmSeqTotal() int  { return lib.Pick(2000, 200000) }
-func memSeqTotal() int  { return lib.Pick(2000, 200000) }
+func evmSeqTotal() int  { return lib.Pick(2000, 150000) }
+func memSeqTotal() int  { return lib.Pick(2000, 150000) }
 func concPlainEvm() int { return lib.Pick(240, 4000) }
 func concPlainMem() int { return lib.Pick(300, 4000) }
 func concRaceEvm() int  { return lib.Pick(100, 600) }
@@ -385,8 +385,13 @@ func parseRaceLog(log string) [][]raceAccess {
 
 var poolFiles = []string{"chain/app/evm/tx_pool.go", "chain/app/evm/tx_sort.go", "gemmill/mempool/mempool.go", "go-clist/clist.go"}
 
+// poolFrame: the racing access itself (innermost frame that is not runtime / sync internals) must be in one of
+// the pool's files; a pool function further up the stack does not make the raced location pool state.
 func poolFrame(a raceAccess) (string, bool) {
 	for _, f := range a.Frames {
+		if strings.HasPrefix(f.Func, "runtime.") || strings.HasPrefix(f.Func, "sync.") || strings.HasPrefix(f.Func, "sync/atomic.") || strings.HasPrefix(f.Func, "internal/") {
+			continue
+		}
 		for _, p := range poolFiles {
 			if strings.Contains(f.File, p+":") {
 				fn := f.Func
@@ -396,6 +401,7 @@ func poolFrame(a raceAccess) (string, bool) {
 				return fn, true
 			}
 		}
+		return "", false
 	}
 	return "", false
 }
